@@ -238,3 +238,94 @@ func c17names(c *fw.Check) {
 	c.DistinctN(int64(total))
 	c.Extra["number_like_named_metadata_cases"] = total
 }
+
+// c17replace: metadata IDs are assigned by EVERY print from the module as it is then. A module with
+// 3 definitions (unnumbered, dense or sparse explicit IDs) and a named definition listing them is
+// printed, then definition k is replaced by a fresh unnumbered node (the NUMBER of definitions
+// stays the same), or removed and another appended, and printed again: every definition of the
+// second print has a unique ID, every reference names a defined ID, the module re-parses, and the
+// new node is listed where the old one was.
+func c17replace(c *fw.Check) {
+	type cse struct {
+		IDs  []int64 `json:"ids_before"`
+		K    int     `json:"replaced"`
+		Edit string  `json:"edit"`
+		Text string  `json:"second_print"`
+		What string  `json:"what"`
+	}
+	idSets := [][]int64{{-1, -1, -1}, {0, 1, 2}, {3, 7, 9}, {-1, 5, -1}, {2, -1, 0}}
+	n := 0
+	for _, ids := range idSets {
+		for k := 0; k < 3; k++ {
+			for _, edit := range []string{"replace-in-place", "remove-and-append"} {
+				n++
+				m := ir.NewModule()
+				var defs []metadata.Definition
+				for i, id := range ids {
+					defs = append(defs, &metadata.Tuple{MetadataID: metadata.MetadataID(id), Fields: []metadata.Field{&metadata.String{Value: fmt.Sprintf("n%d", i)}}})
+				}
+				m.MetadataDefs = append(m.MetadataDefs, defs...)
+				nm := &metadata.NamedDef{Name: "all"}
+				for _, d := range defs {
+					nm.Nodes = append(nm.Nodes, d.(metadata.Node))
+				}
+				m.NamedMetadataDefs["all"] = nm
+				cs := cse{IDs: ids, K: k, Edit: edit}
+				var second string
+				p := fw.Try(func() {
+					_ = m.String()
+					fresh := &metadata.Tuple{MetadataID: -1, Fields: []metadata.Field{&metadata.String{Value: "fresh"}}}
+					if edit == "replace-in-place" {
+						m.MetadataDefs[k] = fresh
+					} else {
+						m.MetadataDefs = append(append(append([]metadata.Definition(nil), m.MetadataDefs[:k]...), m.MetadataDefs[k+1:]...), fresh)
+					}
+					nm.Nodes[k] = fresh
+					second = m.String()
+				})
+				if p != "" {
+					cs.What = "print / replace a definition / print panics: " + p
+					c.Violation("replace-between-prints/panics/"+edit, cs)
+					continue
+				}
+				cs.Text = second
+				c.Case(fmt.Sprintf("replace|%v|%d|%s", ids, k, edit), second)
+				seen := map[string]int{}
+				for _, d := range reC17def.FindAllStringSubmatch(second, -1) {
+					seen[d[1]]++
+				}
+				bad := ""
+				for id, cnt := range seen {
+					if cnt > 1 {
+						bad = "!" + id + " is defined " + fmt.Sprint(cnt) + " times"
+					}
+				}
+				if len(seen) != 4 && bad == "" { // three numbered definitions + !all
+					bad = fmt.Sprintf("%d definition heads in the second print, want 4 (a definition without an ID?)", len(seen))
+				}
+				for _, r := range reMDRef.FindAllStringSubmatch(stripStrings(second), -1) {
+					if seen[r[1]] == 0 && bad == "" {
+						bad = "reference !" + r[1] + " names no definition"
+					}
+				}
+				if bad == "" {
+					if m2, e2, p2 := parseTry(second); e2 != "" || p2 != "" {
+						bad = "the second print does not re-parse: " + fw.Trunc(e2+p2, 200)
+					} else if d, ok := m2.NamedMetadataDefs["all"]; !ok || len(d.Nodes) != 3 {
+						bad = "named metadata lost operands"
+					} else if t, ok := d.Nodes[k].(*metadata.Tuple); !ok || len(t.Fields) != 1 || fmt.Sprint(t.Fields[0]) != `!"fresh"` {
+						bad = "operand " + fmt.Sprint(k) + " of !all is not the new node after re-parse"
+					}
+				}
+				if bad != "" {
+					cs.What = bad
+					c.Violation("replace-between-prints/"+edit, cs)
+					continue
+				}
+				c.Valid(1)
+			}
+		}
+	}
+	c.DistinctN(int64(n))
+	c.Extra["replace_between_prints_cases"] = n
+}
